@@ -38,6 +38,7 @@ from __future__ import annotations
 import hashlib
 import json
 import logging
+import math
 import re
 import threading
 import time
@@ -108,13 +109,34 @@ class TokenIdentity:
         ttl_seconds: How long the answer may be cached.  The caller does the
             caching; this endpoint holds no cache of its own.  Treat it as an
             authorization window, because for any path the asker serves without
-            re-presenting the credential it is exactly that.
+            re-presenting the credential it is exactly that.  Must be a finite,
+            positive number: the endpoint answers ``500`` rather than forward
+            ``NaN``, ``Infinity``, zero, a negative or a non-number.
 
     """
 
     principal: str
     token_name: str = ""
     ttl_seconds: int = 300
+
+
+def _usable_ttl(ttl: object) -> bool:
+    """Return ``True`` if *ttl* is a finite, positive number.
+
+    ``ttl_seconds`` is an authorization window the caller acts on, and the wire
+    contract is that it is finite and positive: ``NaN`` silently disables a
+    caller's cache, ``Infinity`` never expires it, zero or a negative value
+    turns every request into a round trip, and ``null`` / a string / ``true``
+    is not a number at all.  ``bool`` is excluded explicitly because it is an
+    ``int`` subclass that serializes as ``true``.
+    """
+    if isinstance(ttl, bool):
+        return False
+    if isinstance(ttl, int):
+        return ttl > 0
+    if isinstance(ttl, float):
+        return math.isfinite(ttl) and ttl > 0
+    return False
 
 
 #: Resolves an opaque credential, returning ``None`` when it does not resolve.
@@ -305,6 +327,23 @@ class _TokenIntrospectionResource:
             )
             self._refuse(resp, HTTPStatus.NOT_FOUND, "unresolved")
             return
+
+        if not _usable_ttl(identity.ttl_seconds):
+            # A resolver bug, not a fact about the credential.  Passing the
+            # value through would put `NaN`/`Infinity`/`null` into a response
+            # the caller turns into an authorization window; answering 404
+            # would let it negative-cache a credential that did resolve.  So
+            # it is neither definitive answer: a 5xx, which a caller retries
+            # and never caches.
+            _logger.error(
+                "introspection: resolver returned an unusable ttl_seconds",
+                extra={
+                    "principal": caller,
+                    "token_digest": digest,
+                    "ttl_type": type(identity.ttl_seconds).__name__,
+                },
+            )
+            raise falcon.HTTPInternalServerError(description="token resolver returned an unusable ttl_seconds")
 
         _logger.info(
             "introspection: resolved",
